@@ -661,6 +661,17 @@ def m_tile( ctx ):
     return res
 
 
+def _merge_roles( fn ):
+    """( base, length, address, count ) local names of merge(): the running pair is the tuple assigned from next( ... ) before the sweep loop,
+    the swept pair is the loop target"""
+    run = [ s_ for s_ in fn.body if isinstance( s_, ast.Assign ) and is_call_to( s_.value, 'next' ) and isinstance( s_.targets[0], ast.Tuple ) and len( s_.targets[0].elts ) == 2 ]
+    lps = [ s_ for s_ in fn.body if isinstance( s_, ast.For ) and isinstance( s_.target, ast.Tuple ) and len( s_.target.elts ) == 2
+            and any( isinstance( c, ast.Continue ) for c in ast.walk( s_ )) ]
+    if not run or not lps:
+        raise AnalysisError( 'merge: running ( base, length ) pair or sweep loop not found' )
+    return tuple( e.id for e in run[0].targets[0].elts ) + tuple( e.id for e in lps[0].target.elts )
+
+
 @rule( 'M-LIMIT', props=( 'C19', ), floor=3 )
 def m_limit( ctx ):
     """the transfer limit is applied per emitted range: merge passes its `limit` argument through unchanged and shatter deduces the per-bank default from the address of the range it splits"""
@@ -675,7 +686,7 @@ def m_limit( ctx ):
         res.ok( src, mg, 'merge never rebinds limit' )
     calls = [ c for c in ast.walk( mg ) if is_call_to( c, 'shatter' ) ]
     if calls and all( any( k.arg == 'limit' and dotted( k.value ) == 'limit' for k in c.keywords ) and len( c.args ) == 2
-                      and [ dotted( a ) for a in c.args ] == [ 'base', 'length' ] for c in calls ):
+                      and [ dotted( a ) for a in c.args ] == list( _merge_roles( mg )[:2] ) for c in calls ):
         res.ok( src, calls[0], 'every emit is shatter( base, length, limit=limit )' )
     else:
         res.bad( src, calls[0] if calls else mg, 'shatter calls in merge', 'each accumulated range must be emitted through shatter( base, length, limit=limit )' )
@@ -723,8 +734,8 @@ def m_bank( ctx ):
     if reach:
         c = reach[0]
         # address < base + length + ( reach or 1 )   (strict '<' with reach>=1 means adjacent ranges merge, gap of `reach` does not)
-        rtxt = norm_text( c ).replace( ' ', '' )
-        if isinstance( c.ops[0], ast.Lt ) and 'base+length+' in rtxt and dotted( c.left ) == 'address':
+        B, L, A, C = _merge_roles( fn )
+        if pmatch( c, '%s < %s + %s + ( reach or 1 )' % ( A, B, L )) or pmatch( c, '%s < %s + %s + reach' % ( A, B, L )):
             res.ok( src, c, c )
         else:
             res.bad( src, c, c, 'reach test must be address < base + length + reach' )
@@ -1048,7 +1059,7 @@ def t_duration( ctx ):
     emitted = {}		# suffix -> unit name / 's' / 'ms' / 'us'
     seq = []
     for s in ast.walk( fmt ):
-        if isinstance( s, ast.AugAssign ) and dotted( s.target ) == 'result':
+        if isinstance( s, ast.AugAssign ) and isinstance( s.target, ast.Name ) and isinstance( s.op, ast.Add ):
             for c in ast.walk( s.value ):
                 if isinstance( c, ast.Call ) and isinstance( c.func, ast.Attribute ) and c.func.attr == 'format' \
                    and isinstance( c.func.value, ast.Constant ) and isinstance( c.func.value.value, str ):
@@ -1115,14 +1126,18 @@ def t_duration( ctx ):
             parse_pairs.setdefault( gname, None )
     # seconds group 's' contributes with unit 1 (inside the seconds sum), 'us' with unit 1 inside the microseconds sum
     sums = {}
-    for s in ast.walk( prs ):
-        if isinstance( s, ast.Assign ) and isinstance( s.targets[0], ast.Name ) and s.targets[0].id in ( 'seconds', 'microseconds' ):
-            for c in ast.walk( s.value ):
-                if is_call_to( c, 'group' ) and c.args:
-                    sums[try_fold( c.args[0] )] = s.targets[0].id
     td = [ n for n in ast.walk( prs ) if is_call_to( n, 'datetime.timedelta', 'timedelta' ) ]
-    if not td or { k.arg: dotted( k.value ) for k in td[0].keywords } != { 'seconds': 'seconds', 'microseconds': 'microseconds' }:
-        res.bad( src, prs, '_parse result', 'must return timedelta( seconds=seconds, microseconds=microseconds )' )
+    tdk = { k.arg: dotted( k.value ) for k in td[0].keywords } if td else {}
+    if not td or set( tdk ) != { 'seconds', 'microseconds' } or None in tdk.values() or tdk['seconds'] == tdk['microseconds']:
+        res.bad( src, prs, '_parse result', 'must return timedelta( seconds=<seconds sum>, microseconds=<microseconds sum> )' )
+    role = { v: k for k, v in tdk.items() }		# local name -> the timedelta component it feeds
+    for s in ast.walk( prs ):
+        if isinstance( s, ( ast.Assign, ast.AugAssign )):
+            t = s.targets[0] if isinstance( s, ast.Assign ) else s.target
+            if isinstance( t, ast.Name ) and t.id in role:
+                for c in ast.walk( s.value ):
+                    if is_call_to( c, 'group' ) and c.args:
+                        sums[try_fold( c.args[0] )] = role[t.id]
     # --- DURSPEC_RE: for each suffix, "7<suffix>" must match with exactly the group of that suffix set
     rx = src.class_assign( 'duration', 'DURSPEC_RE' )
     pat = None; flags = 0
